@@ -145,12 +145,18 @@ impl Method for PhoneticMethod {
     fn update_engine(&mut self, config: &Config) {
         if let Ok(mut file) = File::open(config.get_user_phonetic_autocorrect()) {
             let modified = modified_time(&file);
-            // Update the auto correct entries if only the file was modified in the meantime.
-            if modified > self.modified {
+            // Update the auto correct entries if only the file was changed in the meantime
+            // (a restored file may be older than the one it replaces).
+            if modified != self.modified {
                 self.suggestion
                     .set_user_autocorrect(parse_autocorrect(&read(&mut file)));
                 self.modified = modified;
             }
+        } else if self.modified != SystemTime::UNIX_EPOCH {
+            // The file is gone, so its entries are no longer in effect.
+            self.suggestion
+                .set_user_autocorrect(HashMap::with_hasher(RandomState::new()));
+            self.modified = SystemTime::UNIX_EPOCH;
         }
     }
 
